@@ -30,14 +30,17 @@ structure Msg where
   sender : String
   to : String
   body : String
+  /-- `QXmppMessage::type()` as the string `toXml` writes: error | normal | chat | groupchat | headline -/
+  type : String
   /-- `QXmppMessage::isCarbonForwarded()` -/
   carbonForwarded : Bool
   deriving DecidableEq, Repr
 
 /-- element below `<forwarded/>`: candidate inner message.  `body = none`: no `<body/>` child.
-`nested = true`: the element additionally carries a carbon wrapper of its own (with a forged message
-inside); nothing in the modelled code looks at it, so the model ignores the flag — the correspondence
-run checks that the implementation ignores it too. -/
+`nested = true`: the element additionally carries, as children of its own, a `<forwarded/>` with a forged message
+(so a `forwarded` node gives forwarded-inside-forwarded), a carbon `<sent/>` wrapper with a forged message, and a
+MAM `<result/>` with a forged message; nothing in the modelled code looks at them, so the model ignores the flag —
+the correspondence run checks that the implementation ignores them too (no second unwrapping). -/
 structure MsgNode where
   tag : String
   ns : String
@@ -45,7 +48,13 @@ structure MsgNode where
   sender : Option String
   to : Option String
   body : Option String
+  /-- `type` attribute -/
+  typ : Option String
   nested : Bool
+  /-- bit mask of further payload children the harness renders into the element (subject, thread, `<private/>`,
+  receipt request, processing hint, unknown extension).  None of the modelled fields depends on them: ignored here;
+  that the delivered message carries them unchanged is judged by the harness oracle on the serialised message. -/
+  extras : Nat
   deriving DecidableEq, Repr
 
 /-- element below the wrapper: candidate `<forwarded/>` -/
@@ -70,6 +79,8 @@ structure Outer where
   id : Option String
   sender : Option String
   to : Option String
+  /-- `type` attribute -/
+  typ : Option String
   kids : List Child
   deriving DecidableEq, Repr
 
@@ -77,6 +88,12 @@ structure Outer where
 def attrVal : Option String → String
   | none => ""
   | some s => s
+
+/-- `enumFromString<Type>(MESSAGE_TYPES, attribute("type")).value_or(Normal)` (QXmppMessage.cpp:1567): one of the
+five RFC 6121 type names (exact, case-sensitive) or else — absent, empty, unknown — `normal` -/
+def msgType (t : Option String) : String :=
+  let v := attrVal t
+  if v = "error" ∨ v = "normal" ∨ v = "chat" ∨ v = "groupchat" ∨ v = "headline" then v else "normal"
 
 /-- text of the (single) `<body/>` child of an inner message; no such child leaves `d->body` empty -/
 def bodyVal : Option String → String
@@ -87,7 +104,7 @@ def bodyVal : Option String → String
 followed by `setCarbonForwarded(true)` -/
 def forwardedMsg (n : MsgNode) : Msg :=
   { id := attrVal n.id, sender := attrVal n.sender, to := attrVal n.to, body := bodyVal n.body,
-    carbonForwarded := true }
+    type := msgType n.typ, carbonForwarded := true }
 
 /-- text of the last child whose tagName is `body` (QXmppMessage::parseExtensions visits the children in
 order, every `body` overwrites `d->body`; the namespace is not looked at); empty when there is none -/
@@ -99,7 +116,7 @@ def lastBody (kids : List Child) : String :=
 /-- ordinary parse of the outer stanza as a message (`QXmppMessage::parse`), flag not set -/
 def parseOuter (o : Outer) : Msg :=
   { id := attrVal o.id, sender := attrVal o.sender, to := attrVal o.to, body := lastBody o.kids,
-    carbonForwarded := false }
+    type := msgType o.typ, carbonForwarded := false }
 
 /-- `firstChildElement(carbon, "forwarded", ns_forwarding)` then
 `firstChildElement(forwarded, "message", ns_client)`; a null `forwarded` has no children -/
